@@ -4,6 +4,7 @@ import (
 	"context"
 	"fmt"
 	"math/rand/v2"
+	"net"
 	"sync/atomic"
 	"time"
 
@@ -304,6 +305,9 @@ func runInstantSync(r *mon.Run, cc c11Case) {
 			if msg, ok := h.RunExited(); ok {
 				detail["honest_syncer_run"] = msg
 			}
+			detail["honest_log_tail"] = h.LogTail()
+			detail["probe_after_failure"] = probeCheckpoint(env, h.Addr, cp)
+			fmt.Printf("note: C11 stream=%d RetrieveCheckpoint failed with an honest peer listed: %v; direct probe afterwards: %v; honest log: %v\n", cc.Stream, rerr, detail["probe_after_failure"], h.LogTail())
 			r.Violation("stall:instant-sync:"+cc.Fault, "RetrieveCheckpoint failed although an honest peer holding the checkpoint was in the peer list", cc, detail)
 		}
 		closeAll(r, nodes)
@@ -399,3 +403,33 @@ func runInstantSync(r *mon.Run, cc c11Case) {
 }
 
 func encodeBlock(b types.Block) string { return chainlabEncode(types.V2Block(b)) }
+
+// probeCheckpoint asks addr for the checkpoint directly (diagnosis only).
+func probeCheckpoint(env *chainlab.Env, addr string, cp *chainlab.Node) string {
+	conn, err := net.DialTimeout("tcp", addr, 3*time.Second)
+	if err != nil {
+		return "dial: " + err.Error()
+	}
+	defer conn.Close()
+	conn.SetDeadline(time.Now().Add(5 * time.Second))
+	tr, err := gateway.Dial(conn, gateway.Header{GenesisID: env.Genesis.ID(), UniqueID: gateway.GenerateUniqueID(), NetAddress: "ephemeral:0"})
+	if err != nil {
+		return "handshake: " + err.Error()
+	}
+	defer tr.Close()
+	st, err := tr.DialStream()
+	if err != nil {
+		return "stream: " + err.Error()
+	}
+	defer st.Close()
+	st.SetDeadline(time.Now().Add(5 * time.Second))
+	rq := &gateway.RPCSendCheckpoint{Index: cp.L.State.Index}
+	if err := st.WriteID(rq); err != nil {
+		return "write id: " + err.Error()
+	} else if err := st.WriteRequest(rq); err != nil {
+		return "write request: " + err.Error()
+	} else if err := st.ReadResponse(rq); err != nil {
+		return "read response: " + err.Error()
+	}
+	return fmt.Sprintf("ok: block %v", rq.Block.ID())
+}
